@@ -84,8 +84,9 @@ class Run:
         for k in stale:
             self.notes.append("known finding %s did not fire on this tree (repaired or re-keyed)" % k)
         replay = None
+        selftest = bool(os.environ.get("VERIF_SELFTEST"))
         if new:
-            d = os.path.join(VERIF, ".cache", "violations")
+            d = os.path.join(VERIF, ".cache", "selftest" if selftest else "violations")
             os.makedirs(d, exist_ok=True)
             replay = os.path.join(d, "%s.json" % self.pid)
             with open(replay, "w") as f:
@@ -126,8 +127,11 @@ class Run:
             "wall_s": round(time.time() - self.t0, 2),
             "violations": len(new),
         }
-        os.makedirs(os.path.join(VERIF, "evidence"), exist_ok=True)
-        with open(os.path.join(VERIF, "evidence", "%s.json" % self.pid), "w") as f:
+        if getattr(self, "extra_coverage", None):
+            cov.update(self.extra_coverage)
+        evdir = os.path.join(VERIF, ".cache", "selftest") if selftest else os.path.join(VERIF, "evidence")
+        os.makedirs(evdir, exist_ok=True)
+        with open(os.path.join(evdir, "%s.json" % self.pid), "w") as f:
             json.dump(ev, f, indent=1)
         print("%s %s: %d rule(s), %d instance(s), %d failing (%d known, %d new), %.1fs" % (
             self.pid, self.tier, len(self.order), obligations, failed, len(supp), len(new), time.time() - self.t0))
